@@ -14,6 +14,7 @@ like the chrono values), `Weekday` equality, `AnyIpCidr::contains` (modelled and
 -/
 import RioModel.Props.C01prim
 import RioModel.Proofs.TimeGen
+import RioModel.Proofs.RouterGen
 set_option linter.unusedSimpArgs false
 
 namespace Rio.C01
@@ -115,5 +116,100 @@ theorem not_in_range_gen {κ β : Type} (contains : κ → β → Bool) (c : κ)
 example : genRouteTimeMatch (some 79200) (some 7200) (timeOfDay 1709247600) = false := by decide
 example : genRouteDateTimeMatch (some 10) (some 20) 10 = true ∧ genRouteDateTimeMatch (some 10) (some 20) 20 = false := by
   decide
+
+/-! ### `match_request` of the host / scheme / method / ip layers, regenerated (section `w4_translate_router`)
+
+`Rio.Consts.genHostMatchRequest`, `genSchemeMatchRequest`, `genMethodMatchRequest`, `genIpMatchRequest` are translated
+from src/router/request_matcher/{host,scheme,method,ip}.rs; Proofs/RouterGen.lean instantiates their parameters (next
+layer, map / tree lookups, the entries of the iterated maps) from W2's layer states and proves them equal to W2's
+`Host.matchReq`, `Scheme.matchReq`, `Method.matchReq`, `Ip.matchReq`.  `towerOpsGen E` is the router tower with the four
+translated `match_request`s; `match_exact` and the any-host clauses are restated for it. -/
+
+section RouterLayers
+open Rio.Router Rio.RouterGen
+
+/-- the four translated `match_request`s are the modelled ones, for every next layer `I`, state and request -/
+theorem gen_layers_eq_model (I : MOps) {P : Type} [DecidableEq P] (H : HostCfg P) (q : Req)
+    (sh : LState I (HKeyG P)) (ss : LState I String) (sm : LState I MKey) (si : LState I RouteIp) :
+    genHost I H sh q = Host.matchReq H I sh q ∧ genScheme I ss q = Scheme.matchReq I ss q ∧
+    genMethod I sm q = Method.matchReq I sm q ∧ genIp I si q = Ip.matchReq I si q :=
+  ⟨genHost_eq I H sh q, genScheme_eq I ss q, genMethod_eq I sm q, genIp_eq I si q⟩
+
+/-- hence the tower built from them is the modelled tower -/
+theorem gen_tower_eq_model (E : Env) : towerOpsGen E = towerOps E := towerOpsGen_eq E
+
+/-- **C01 main statement for the router whose scheme / host / ip / method `match_request` are the regenerated code.** -/
+theorem match_exact_gen (E : Env) (R : List Route) (hR : NodupIds R) (q : Req) :
+    ((RouterG.matchReq (towerOpsGen E) (RouterG.build (towerOpsGen E) R) q).map (·.id)).Nodup ∧
+    ∀ r, r ∈ RouterG.matchReq (towerOpsGen E) (RouterG.build (towerOpsGen E) R) q ↔ r ∈ R ∧ sat E R r q = true := by
+  rw [towerOpsGen_eq]
+  exact match_exact E R hR q
+
+/-- **`always_any_host` for the regenerated code**: with `always_match_any_host` a rule is reported iff its seven
+triggers accept the request. -/
+theorem always_any_host_gen (E : Env) (hE : E.alwaysAnyHost = true) (R : List Route) (hR : NodupIds R) (q : Req)
+    (r : Route) :
+    r ∈ RouterG.matchReq (towerOpsGen E) (RouterG.build (towerOpsGen E) R) q ↔ r ∈ R ∧ triggersOk E r q = true := by
+  rw [(match_exact_gen E R hR q).2 r, always_any_host E hE R r q]
+
+/-- **`fallback_any_host` for the regenerated code**: without it a host-less rule is reported iff its triggers accept
+the request and no host-bound rule of the same scheme scope has all its triggers accepted. -/
+theorem fallback_any_host_gen (E : Env) (hE : E.alwaysAnyHost = false) (R : List Route) (hR : NodupIds R) (q : Req)
+    (r : Route) :
+    r ∈ RouterG.matchReq (towerOpsGen E) (RouterG.build (towerOpsGen E) R) q ↔
+      r ∈ R ∧ triggersOk E r q = true ∧
+        (hostBound r = true ∨
+          ¬ ∃ r' ∈ R, hostBound r' = true ∧ schemeKey r' = schemeKey r ∧ triggersOk E r' q = true) := by
+  rw [(match_exact_gen E R hR q).2 r, fallback_any_host E hE R r q]
+
+/-- **The any-host clause, closed form of the translated `HostMatcher::match_request`** (any next layer, any lookups):
+`bound` = the routes of the matching tree buckets followed by those of the static bucket; the any-host bucket is
+appended iff `always_match_any_host` or `bound` is empty. -/
+theorem host_any_clause_gen {ρ μ η : Type} (next : μ → List ρ) (treeFind : η → List μ) (staticGet : η → Option μ)
+    (anyHost : μ) (always : Bool) (host : Option η) (bound : List ρ)
+    (hb : bound =
+      match host with
+      | none => []
+      | some h => (treeFind h).flatMap next ++ ((staticGet h).map next).getD []) :
+    Rio.Consts.genHostMatchRequest next treeFind staticGet anyHost always host =
+      if always || bound.isEmpty then bound ++ next anyHost else bound :=
+  genHostMatchRequest_closed next treeFind staticGet anyHost always host bound hb
+
+/-- **The method clause, closed form of the translated `MethodMatcher::match_request`**: the any-method bucket, then the
+bucket of the request method, then every exclude bucket whose list does not contain the method. -/
+theorem method_clause_gen {ρ μ η ε : Type} (next : μ → List ρ) (listed : ε → η → Bool) (methodsGet : η → Option μ)
+    (excl : List (ε × μ)) (anyMethod : μ) (m : η) :
+    Rio.Consts.genMethodMatchRequest next listed methodsGet excl anyMethod m =
+      next anyMethod ++ ((methodsGet m).map next).getD [] ++
+        excl.flatMap (fun e => if !listed e.1 m then next e.2 else []) := by
+  unfold Rio.Consts.genMethodMatchRequest
+  simp only [methodLoop_eq]
+  cases methodsGet m <;> simp
+
+/-- **The ip clause incl. report-once, closed form of the translated `IpMatcher::match_request`**: without a remote
+address only the no-ip bucket; otherwise every bucket whose range matches contributes the routes whose id is not
+listed yet (`pushNew`). -/
+theorem ip_clause_gen {μ κ α : Type} (next : μ → List Route) (matchIp : κ → α → Bool) (matchers : List (κ × μ))
+    (noMatcher : μ) (addr : Option α) :
+    Rio.Consts.genIpMatchRequest next matchIp (fun r : Route => r.id) matchers noMatcher addr =
+      match addr with
+      | none => next noMatcher
+      | some a => matchers.foldl (fun acc e => if matchIp e.1 a then pushNew acc (next e.2) else acc) (next noMatcher) := by
+  unfold Rio.Consts.genIpMatchRequest
+  cases addr with
+  | none => rfl
+  | some a => simp only [ipLoop1_eq]
+
+/-- **The scheme clause, closed form of the translated `SchemeMatcher::match_request`.** -/
+theorem scheme_clause_gen {ρ μ η : Type} (next : μ → List ρ) (schemesGet : η → Option μ) (anyScheme : μ)
+    (scheme : Option η) :
+    Rio.Consts.genSchemeMatchRequest next schemesGet anyScheme scheme =
+      next anyScheme ++ ((scheme.bind schemesGet).map next).getD [] := by
+  unfold Rio.Consts.genSchemeMatchRequest
+  cases scheme with
+  | none => simp
+  | some sc => simp only [Option.bind_some]; cases schemesGet sc <;> simp
+
+end RouterLayers
 
 end Rio.C01
